@@ -498,6 +498,10 @@ class Evaluator(object):
             res = True
             for op, right_e in zip(e.ops, e.comparators):
                 right = self.expr(right_e, env, fi)
+                if self.lenient and len(e.ops) == 1 and isinstance(op, (ast.In, ast.NotIn)) and isinstance(left, K) and isinstance(left.v, str) and \
+                        isinstance(right, Sym) and right.pytype is str and getattr(right, "keys", None) is None:
+                    # a substring test on a text nobody knows: undecided, both outcomes are explored
+                    return Sym("opaque:%r %s %s" % (left.v, "in" if isinstance(op, ast.In) else "not in", right.label))
                 r = self.compare(op, left, right, e)
                 if not r:
                     return K(False)
